@@ -99,7 +99,7 @@ impl World {
         } else {
             self.violate(Violation::new(
                 "panic",
-                &[Prop::C06, Prop::C15, Prop::C19, Prop::C05, Prop::C11],
+                &[Prop::C06, Prop::C15, Prop::C19, Prop::C05, Prop::C11, Prop::C04, Prop::C10, Prop::C12],
                 format!("{what} panicked: {} at {}", info.message, info.location),
             ));
         }
